@@ -30,12 +30,20 @@ AXL_M = ("awvalid", "awaddr", "wvalid", "wdata", "wstrb", "bready", "arvalid", "
 AXL_S = ("awready", "wready", "bvalid", "bresp", "arready", "rvalid", "rresp", "rdata")
 WB_M = ("cyc", "stb", "we", "adr", "sel", "datw")
 WB_S = ("ack", "datr", "err")
-FIELDS = {"axl": (AXL_M, AXL_S), "wb": (WB_M, WB_S)}
+AXI_M = ("awvalid", "awaddr", "awburst", "awlen", "awsize", "awid", "wvalid", "wdata", "wstrb", "wlast", "bready",
+         "arvalid", "araddr", "arburst", "arlen", "arsize", "arid", "rready")
+AXI_S = ("awready", "wready", "bvalid", "bresp", "bid", "arready", "rvalid", "rresp", "rdata", "rid", "rlast")
+AHB_M = ("haddr", "hsize", "htrans", "hwdata", "hwrite", "hsel")
+AHB_S = ("hrdata", "hreadyout", "hresp")
+FIELDS = {"axl": (AXL_M, AXL_S), "wb": (WB_M, WB_S), "axi": (AXI_M, AXI_S), "ahb": (AHB_M, AHB_S)}
 
 # outputs compared only when their qualifier (field of the same group) is 1
 QUAL = {"awaddr": "awvalid", "wdata": "wvalid", "wstrb": "wvalid", "araddr": "arvalid",
         "bresp": "bvalid", "rresp": "rvalid", "rdata": "rvalid",
-        "we": "stb", "adr": "stb", "sel": "stb", "datw": "stb", "datr": "ack"}
+        "we": "stb", "adr": "stb", "sel": "stb", "datw": "stb", "datr": "ack",
+        "awburst": "awvalid", "awlen": "awvalid", "awsize": "awvalid", "awid": "awvalid", "wlast": "wvalid",
+        "arburst": "arvalid", "arlen": "arvalid", "arsize": "arvalid", "arid": "arvalid",
+        "bid": "bvalid", "rid": "rvalid", "rlast": "rvalid"}
 
 
 def axl_m_sigs(b):
@@ -54,7 +62,26 @@ def wb_s_sigs(b):
     return [b.ack, b.dat_r, b.err]
 
 
-SIGS = {"axl": (axl_m_sigs, axl_s_sigs), "wb": (wb_m_sigs, wb_s_sigs)}
+def axi_m_sigs(b):
+    return [b.aw.valid, b.aw.addr, b.aw.burst, b.aw.len, b.aw.size, b.aw.id, b.w.valid, b.w.data, b.w.strb, b.w.last,
+            b.b.ready, b.ar.valid, b.ar.addr, b.ar.burst, b.ar.len, b.ar.size, b.ar.id, b.r.ready]
+
+
+def axi_s_sigs(b):
+    return [b.aw.ready, b.w.ready, b.b.valid, b.b.resp, b.b.id, b.ar.ready, b.r.valid, b.r.resp, b.r.data, b.r.id,
+            b.r.last]
+
+
+def ahb_m_sigs(b):
+    return [b.addr, b.size, b.trans, b.wdata, b.write, b.sel]
+
+
+def ahb_s_sigs(b):
+    return [b.rdata, b.readyout, b.resp]
+
+
+SIGS = {"axl": (axl_m_sigs, axl_s_sigs), "wb": (wb_m_sigs, wb_s_sigs), "axi": (axi_m_sigs, axi_s_sigs),
+        "ahb": (ahb_m_sigs, ahb_s_sigs)}
 
 
 def init_byte(a):
@@ -154,6 +181,8 @@ class PortInst:
                          ("rvalid", "rready"), ("stb", "ack")):
                 if d.get(side + "." + v) and d.get(side + "." + r):
                     return True
+        if d.get("m.hsel") and d.get("m.htrans") == 2 and d.get("m.hreadyout"):
+            return True
         return False
 
     def monitor(self):
@@ -361,8 +390,10 @@ class AxlPartner:
     (1 = single outstanding, 2+ = pipelining slave).  Timing policy: `p_ready` (address/data acceptance),
     `p_exec` (internal latency), `p_resp` (raising a response).  Word address = byte address // nb."""
 
-    def __init__(self, nb, depth=1, p_ready=0.6, p_exec=0.6, p_resp=0.6, p_err=0.0, mem=None, ready_idle=False):
+    def __init__(self, nb, depth=1, p_ready=0.6, p_exec=0.6, p_resp=0.6, p_err=0.0, mem=None, ready_idle=False,
+                 aw_before_w=False, ordered=False):
         self.nb, self.depth = nb, depth
+        self.aw_before_w, self.ordered = aw_before_w, ordered   # W only after its AW; reads after accepted writes
         self.p_ready, self.p_exec, self.p_resp, self.p_err = p_ready, p_exec, p_resp, p_err
         self.mem = mem or Mem()
         self.awq, self.wq, self.bq, self.arq, self.rq = [], [], [], [], []
@@ -373,6 +404,8 @@ class AxlPartner:
         d = {}
         d["awready"] = 1 if len(self.awq) + len(self.bq) < self.depth and rng.random() < self.p_ready else 0
         d["wready"] = 1 if len(self.wq) + len(self.bq) < self.depth and rng.random() < self.p_ready else 0
+        if self.aw_before_w and len(self.awq) <= len(self.wq):
+            d["wready"] = 0
         d["arready"] = 1 if len(self.arq) + len(self.rq) < self.depth and rng.random() < self.p_ready else 0
         if self.bq and (self.bheld or rng.random() < self.p_resp):
             d["bvalid"], d["bresp"] = 1, self.bq[0]
@@ -403,7 +436,7 @@ class AxlPartner:
             else:
                 self.mem.write_word((a // self.nb) * self.nb, self.nb, strb, data)
                 self.bq.append(0)
-        if self.arq and rng.random() < self.p_exec:
+        if self.arq and rng.random() < self.p_exec and not (self.ordered and (self.awq or self.wq)):
             a = self.arq.pop(0)
             if rng.random() < self.p_err:
                 self.rq.append((2, rng.getrandbits(8 * self.nb)))
@@ -489,6 +522,338 @@ def _hold(prev, cur, valid, ready, fields):
 AXL_REQ_CH = (("awvalid", "awready", ("awaddr",)), ("wvalid", "wready", ("wdata", "wstrb")),
               ("arvalid", "arready", ("araddr",)))
 AXL_RSP_CH = (("bvalid", "bready", ("bresp",)), ("rvalid", "rready", ("rresp", "rdata")))
+
+
+def axi_beat_addrs(addr, blen, size, burst):
+    """AXI4 beat addresses of a burst (specification A3.4.1), independent of the code under test."""
+    nbytes = 1 << size
+    out = []
+    if burst == 0:                                   # FIXED
+        return [addr] * (blen + 1)
+    aligned = (addr // nbytes) * nbytes
+    if burst == 1:                                   # INCR
+        return [addr] + [aligned + k * nbytes for k in range(1, blen + 1)]
+    total = nbytes * (blen + 1)                      # WRAP
+    lower = (addr // total) * total
+    a = addr
+    for k in range(blen + 1):
+        out.append(a)
+        a = a + nbytes
+        if a >= lower + total:
+            a = lower
+    return out
+
+
+def axi_beat_lanes(beat_addr, size, nb):
+    """Byte lanes of the data bus a beat transfers."""
+    nbytes = 1 << size
+    lo = beat_addr % nb
+    hi = (lo // nbytes) * nbytes + nbytes
+    return range(lo, min(hi, nb))
+
+
+class AxiMaster:
+    """Protocol-following AXI4 master issuing INCR/FIXED/WRAP bursts (`max_len` beats-1, sizes up to the bus width).
+    `max_out` transactions per direction in flight; W beats follow their AW after a random delay (`w_early`: may
+    also start before it)."""
+
+    def __init__(self, abits, nb, max_len=3, p_wr=0.3, p_rd=0.3, p_bready=0.6, p_rready=0.6, max_out=1, ids=4,
+                 bursts=(1, 1, 1, 0, 2), narrow=True, w_early=False, max_delay=3, p_wgap=0.3):
+        self.abits, self.nb, self.max_len = abits, nb, max_len
+        self.p_wr, self.p_rd, self.p_bready, self.p_rready = p_wr, p_rd, p_bready, p_rready
+        self.max_out, self.ids, self.bursts, self.narrow, self.w_early = max_out, ids, bursts, narrow, w_early
+        self.max_delay, self.p_wgap = max_delay, p_wgap
+        self.awq, self.wq, self.arq = [], [], []
+        self.out_w = self.out_r = 0
+        self.pool = None
+        self.wheld = False
+
+    def _burst(self, rng):
+        if self.pool is None:
+            self.pool = addr_pool(rng, self.abits, self.nb, n=6)
+        full = self.nb.bit_length() - 1
+        size = full if (not self.narrow or rng.random() < 0.7) else rng.randint(0, full)
+        burst = rng.choice(self.bursts)
+        blen = rng.randint(0, self.max_len)
+        base = rng.choice(self.pool) + rng.randint(0, 3) * self.nb
+        if burst == 2:
+            blen = rng.choice([l for l in (1, 3, 7, 15) if l <= max(self.max_len, 1)])
+            base = (base // (1 << size)) * (1 << size) + rng.randint(0, blen) * (1 << size)
+        elif rng.random() < 0.3:
+            base += rng.randint(0, self.nb - 1)           # unaligned start
+        else:
+            base = (base // (1 << size)) * (1 << size)
+        base &= (1 << self.abits) - 1
+        # keep inside a 4 KB page
+        if (base & 0xfff) + (blen + 1) * (1 << size) > 0x1000:
+            base &= ~0xfff
+        return dict(addr=base, len=blen, size=size, burst=burst, id=rng.randrange(self.ids))
+
+    def drive(self, rng):
+        if self.out_w < self.max_out and rng.random() < self.p_wr:
+            self.out_w += 1
+            b = self._burst(rng)
+            d1 = rng.randint(0, self.max_delay)
+            self.awq.append([d1, b])
+            addrs = axi_beat_addrs(b["addr"], b["len"], b["size"], b["burst"])
+            wd = rng.randint(0, self.max_delay) if self.w_early else d1 + 1 + rng.randint(0, self.max_delay)
+            for k, a in enumerate(addrs):
+                strb = 0
+                for ln in axi_beat_lanes(a, b["size"], self.nb):
+                    if rng.random() < 0.85:
+                        strb |= 1 << ln
+                self.wq.append([wd if k == 0 else 0, (rng.getrandbits(8 * self.nb), strb, 1 if k == b["len"] else 0)])
+        if self.out_r < self.max_out and rng.random() < self.p_rd:
+            self.out_r += 1
+            self.arq.append([rng.randint(0, self.max_delay), self._burst(rng)])
+        for q in (self.awq, self.arq):
+            if q and q[0][0] > 0:
+                q[0][0] -= 1
+        if self.wq and self.wq[0][0] > 0:
+            self.wq[0][0] -= 1
+        d = {}
+        for ch, q in (("aw", self.awq), ("ar", self.arq)):
+            if q and q[0][0] == 0:
+                b = q[0][1]
+                d[ch + "valid"] = 1
+            else:
+                b = dict(addr=rng.getrandbits(self.abits), len=rng.getrandbits(8), size=rng.getrandbits(3),
+                         burst=rng.getrandbits(2), id=rng.randrange(self.ids))
+                d[ch + "valid"] = 0
+            for f in ("addr", "len", "size", "burst", "id"):
+                d[ch + f] = b[f]
+        if self.wq and self.wq[0][0] == 0 and (self.wheld or rng.random() >= self.p_wgap):
+            d["wvalid"], (d["wdata"], d["wstrb"], d["wlast"]) = 1, self.wq[0][1]
+            self.wheld = True
+        else:
+            d["wvalid"], d["wdata"], d["wstrb"], d["wlast"] = 0, rng.getrandbits(8 * self.nb), rng.getrandbits(self.nb), rng.getrandbits(1)
+        d["bready"] = 1 if rng.random() < self.p_bready else 0
+        d["rready"] = 1 if rng.random() < self.p_rready else 0
+        return d
+
+    def observe(self, drv, rsp):
+        if drv["awvalid"] and rsp["awready"]:
+            self.awq.pop(0)
+        if drv["wvalid"] and rsp["wready"]:
+            self.wq.pop(0)
+            self.wheld = False
+        if drv["arvalid"] and rsp["arready"]:
+            self.arq.pop(0)
+        if rsp["bvalid"] and drv["bready"]:
+            self.out_w = max(0, self.out_w - 1)
+        if rsp["rvalid"] and drv["rready"] and rsp["rlast"]:
+            self.out_r = max(0, self.out_r - 1)
+
+
+AXI_REQ_CH = (("awvalid", "awready", ("awaddr", "awburst", "awlen", "awsize", "awid")),
+              ("wvalid", "wready", ("wdata", "wstrb", "wlast")),
+              ("arvalid", "arready", ("araddr", "arburst", "arlen", "arsize", "arid")))
+AXI_RSP_CH = (("bvalid", "bready", ("bresp", "bid")), ("rvalid", "rready", ("rresp", "rdata", "rid", "rlast")))
+
+
+class AxiMemOracle:
+    """Reference byte memory seen through one AXI4 port: bursts fully and correctly answered (beat count, `last`
+    on the final beat only, ids returned), data of a flat byte memory on the transferred lanes (a byte with a
+    write in flight may read old or new), one B per write burst after its last W beat."""
+
+    def __init__(self, nb, amap=None, check_data=True):
+        self.nb = nb
+        self.amap = amap or (lambda a: a)
+        self.mem = SetMem()
+        self.aws, self.wbeats = [], []         # accepted AW bursts / W beats not yet answered
+        self.rds = []                          # open read bursts: dict(b, addrs, k, adm{byte: set})
+        self.cur_ar = None
+        self.events = []
+        self.check_data = check_data
+        self.b_beats_done = 0
+
+    def _note_write(self, base, strb, data):
+        for r in self.rds:
+            for k in range(self.nb):
+                if (strb >> k) & 1 and (base + k) in r["adm"]:
+                    r["adm"][base + k].add((data >> (8 * k)) & 0xff)
+
+    def _pending_writes(self):
+        """(base, strb, data) of every W beat seen whose burst (address) is known and not yet answered."""
+        out = []
+        k = 0
+        for b in self.aws:
+            addrs = axi_beat_addrs(b["addr"], b["len"], b["size"], b["burst"])
+            for a in addrs:
+                if k < len(self.wbeats):
+                    data, strb, _ = self.wbeats[k]
+                    out.append((self.amap(a) & ~(self.nb - 1), strb, data))
+                k += 1
+        return out
+
+    def observe(self, d):
+        nb = self.nb
+        msg = None
+        if d["arvalid"] and self.cur_ar is None:
+            b = {f: d["ar" + f] for f in ("addr", "len", "size", "burst", "id")}
+            self.cur_ar = b
+            addrs = axi_beat_addrs(b["addr"], b["len"], b["size"], b["burst"])
+            adm = {}
+            for a in addrs:
+                base = self.amap(a) & ~(nb - 1)
+                for k in range(nb):
+                    adm.setdefault(base + k, set(self.mem.rd(base + k)))
+            r = {"b": b, "addrs": addrs, "k": 0, "adm": adm, "accepted": False}
+            self.rds.append(r)
+            for (base, strb, data) in self._pending_writes():
+                for k in range(nb):
+                    if (strb >> k) & 1 and (base + k) in adm:
+                        adm[base + k].add((data >> (8 * k)) & 0xff)
+        if d["arvalid"] and d["arready"]:
+            self.cur_ar = None
+            for r in self.rds:
+                if not r["accepted"]:
+                    r["accepted"] = True
+                    break
+        if d["awvalid"] and d["awready"]:
+            self.aws.append({f: d["aw" + f] for f in ("addr", "len", "size", "burst", "id")})
+            for x in self._pending_writes():
+                self._note_write(*x)
+        if d["wvalid"] and d["wready"]:
+            self.wbeats.append((d["wdata"], d["wstrb"], d["wlast"]))
+            for x in self._pending_writes():
+                self._note_write(*x)
+        if d["bvalid"] and d["bready"]:
+            if not self.aws:
+                return "write response without an accepted write address"
+            b = self.aws[0]
+            n = b["len"] + 1
+            if len(self.wbeats) < n:
+                return "write response before the last data beat of the burst"
+            if d["bid"] != b["id"]:
+                return "b.id %d for a burst with id %d" % (d["bid"], b["id"])
+            addrs = axi_beat_addrs(b["addr"], b["len"], b["size"], b["burst"])
+            beats = self.wbeats[:n]
+            self.aws.pop(0)
+            self.wbeats = self.wbeats[n:]
+            if not beats[-1][2] or any(x[2] for x in beats[:-1]):
+                return None          # master's own w.last misplaced: not the bridge's problem
+            for a, (data, strb, _) in zip(addrs, beats):
+                base = self.amap(a) & ~(nb - 1)
+                self.mem.write_word(base, nb, strb, data, ok=(d["bresp"] == 0))
+                self._note_write(base, strb, data)
+            self.events.append(("w", addrs[0], None, None, d["bresp"], n))
+        if d["rvalid"] and d["rready"]:
+            if not self.rds or not self.rds[0]["accepted"]:
+                return "read data without an accepted read address"
+            r = self.rds[0]
+            b, k = r["b"], r["k"]
+            final = (k == b["len"])
+            if bool(d["rlast"]) != final:
+                msg = "r.last = %d on beat %d of a burst of %d beats" % (d["rlast"], k + 1, b["len"] + 1)
+            elif d["rid"] != b["id"]:
+                msg = "r.id %d for a burst with id %d" % (d["rid"], b["id"])
+            elif d["rresp"] == 0 and self.check_data:
+                a = r["addrs"][k]
+                base = self.amap(a) & ~(nb - 1)
+                for ln in axi_beat_lanes(a, b["size"], nb):
+                    v = (d["rdata"] >> (8 * ln)) & 0xff
+                    if v not in r["adm"][base + ln]:
+                        msg = "beat %d: read of byte address 0x%x returned 0x%02x, reference memory holds %s" % (
+                            k + 1, base + ln, v, "/".join("0x%02x" % x for x in sorted(r["adm"][base + ln])))
+                        break
+            self.events.append(("r", r["addrs"][k], None, d["rdata"], d["rresp"], 1))
+            r["k"] += 1
+            if final or d["rlast"]:
+                self.rds.pop(0)
+        return msg
+
+    def outstanding(self):
+        return bool(self.aws or self.wbeats or self.rds)
+
+
+
+class AhbMaster:
+    """AHB-Lite master issuing single NONSEQ transfers (sizes up to the bus width) with IDLE/BUSY gaps.  The
+    address phase of the next transfer overlaps the data phase of the current one; everything is held while
+    `hreadyout` is low."""
+
+    def __init__(self, abits, nb, p_start=0.6, p_write=0.5, sizes=None):
+        self.abits, self.nb, self.p_start, self.p_write = abits, nb, p_start, p_write
+        self.sizes = sizes if sizes is not None else list(range(nb.bit_length()))
+        self.pool = None
+        self.addr_phase = None       # control signals being presented (held while readyout is low)
+        self.data_phase = None       # (write, wdata) of the transfer in its data phase
+
+    def drive(self, rng):
+        if self.pool is None:
+            self.pool = addr_pool(rng, self.abits, self.nb, n=8)
+        if self.addr_phase is None:
+            if rng.random() < self.p_start:
+                size = rng.choice(self.sizes)
+                a = (rng.choice(self.pool) + rng.randrange(self.nb)) & ((1 << self.abits) - 1)
+                a &= ~((1 << size) - 1)
+                self.addr_phase = dict(haddr=a, hsize=size, htrans=2, hwrite=1 if rng.random() < self.p_write else 0,
+                                       hsel=1, _wdata=rng.getrandbits(8 * self.nb))
+            else:
+                self.addr_phase = dict(haddr=rng.getrandbits(self.abits), hsize=rng.getrandbits(2),
+                                       htrans=rng.choice((0, 0, 1)), hwrite=rng.getrandbits(1),
+                                       hsel=rng.getrandbits(1), _wdata=0)
+        d = {k: v for k, v in self.addr_phase.items() if not k.startswith("_")}
+        d["hwdata"] = self.data_phase[1] if self.data_phase is not None else rng.getrandbits(8 * self.nb)
+        return d
+
+    def observe(self, drv, rsp):
+        if rsp["hreadyout"]:
+            ap = self.addr_phase
+            self.data_phase = (ap["hwrite"], ap["_wdata"]) if (ap["htrans"] == 2 and ap["hsel"]) else None
+            self.addr_phase = None
+
+
+class AhbMemOracle:
+    """Reference byte memory seen through an AHB-Lite slave port (single transfers)."""
+
+    def __init__(self, nb, amap=None, check_resp=True):
+        self.nb = nb
+        self.amap = amap or (lambda a: a)
+        self.mem = SetMem()
+        self.cur = None          # transfer in its data phase: dict(addr,size,write)
+        self.wdata = None
+        self.events = []
+        self.err_seen = False
+        self.lg = nb.bit_length() - 1
+
+    def observe(self, d):
+        msg = None
+        if self.cur is not None:
+            if self.wdata is None:
+                self.wdata = d["hwdata"]
+            if d["hresp"] and not d["hreadyout"]:
+                self.err_seen = True
+            if d["hreadyout"]:
+                t = self.cur
+                base = self.amap(t["addr"]) & ~(self.nb - 1)
+                lanes = range(t["addr"] % self.nb, t["addr"] % self.nb + (1 << t["size"]))
+                strb = sum(1 << l for l in lanes)
+                err = bool(d["hresp"])
+                if t["write"]:
+                    self.mem.write_word(base, self.nb, strb, self.wdata, ok=not err)
+                    self.events.append(("w", base, strb, self.wdata, 2 if err else 0))
+                else:
+                    self.events.append(("r", base, strb, d["hrdata"], 2 if err else 0))
+                    if not err:
+                        for l in lanes:
+                            v = (d["hrdata"] >> (8 * l)) & 0xff
+                            if v not in self.mem.rd(base + l):
+                                msg = "read of byte address 0x%x returned 0x%02x, reference memory holds %s" % (
+                                    base + l, v, "/".join("0x%02x" % x for x in sorted(self.mem.rd(base + l))))
+                                break
+                self.cur = None
+                self.wdata = None
+        if self.cur is None and d["hreadyout"] and d["hsel"] and d["htrans"] == 2 and d["hsize"] <= self.lg:
+            self.cur = dict(addr=d["haddr"], size=d["hsize"], write=d["hwrite"])
+            self.wdata = None
+            self.err_seen = False
+        return msg
+
+    def outstanding(self):
+        return self.cur is not None
+
 
 
 class AxlMemOracle:
@@ -638,11 +1003,14 @@ class BridgeMonitor:
     (byte address of lane 0).  `errs`: check error propagation.  `hang`: cycles without any handshake while a
     master request is pending before a hang is reported (None = off)."""
 
-    def __init__(self, inst, m_kind, s_kind, m_nb, s_nb, m_amap, s_amap, errs=True, hang=400, check_data=True):
+    def __init__(self, inst, m_kind, s_kind, m_nb, s_nb, m_amap, s_amap, errs=True, hang=400, check_data=True,
+                 b_order=False):
         self.inst = inst
         self.m_kind, self.s_kind = m_kind, s_kind
-        mk = (lambda nb, amap: AxlMemOracle(nb, amap, check_data=check_data)) if m_kind == "axl" else \
-            (lambda nb, amap: WbMemOracle(nb, amap))
+        mk = {"axl": lambda nb, amap: AxlMemOracle(nb, amap, check_data=check_data),
+              "axi": lambda nb, amap: AxiMemOracle(nb, amap, check_data=check_data),
+              "ahb": lambda nb, amap: AhbMemOracle(nb, amap),
+              "wb": lambda nb, amap: WbMemOracle(nb, amap)}[m_kind]
         sk = (lambda nb, amap: AxlMemOracle(nb, amap)) if s_kind == "axl" else (lambda nb, amap: WbMemOracle(nb, amap))
         self.m_or = mk(m_nb, m_amap)
         self.s_or = sk(s_nb, s_amap) if s_kind else None
@@ -650,6 +1018,8 @@ class BridgeMonitor:
         self.dead = False
         self.errs = errs
         self.err_acc = {"w": False, "r": False}
+        self.b_order = b_order          # a write response stands for completed slave-side writes (1:1 bridges)
+        self.s_wr_done = 0
         self.hang = hang
         self.idle_cycles = 0
         self.t = 0
@@ -671,11 +1041,18 @@ class BridgeMonitor:
         """Stability of the channels driven by the bus master (requests) or the bus slave (responses)."""
         if prev is None:
             return None
-        if kind == "axl":
-            for v, r, fs in (AXL_REQ_CH if driven_by_master else AXL_RSP_CH):
+        if kind in ("axl", "axi"):
+            chans = (AXL_REQ_CH, AXL_RSP_CH) if kind == "axl" else (AXI_REQ_CH, AXI_RSP_CH)
+            for v, r, fs in chans[0 if driven_by_master else 1]:
                 f = _hold(prev, cur, v, r, fs)
                 if f:
                     return "%s withdrawn or %s changed before %s" % (v, f, r)
+            return None
+        if kind == "ahb":
+            if driven_by_master and not prev["hreadyout"]:
+                for f in ("haddr", "hsize", "htrans", "hwrite", "hsel", "hwdata"):
+                    if prev[f] != cur[f]:
+                        return "AHB %s changed while hreadyout was low" % f
             return None
         if driven_by_master:
             if prev["cyc"] and prev["stb"] and not prev["ack"]:
@@ -710,6 +1087,8 @@ class BridgeMonitor:
             for ev in self.s_or.events[n_before:]:
                 if ev[4] != 0:
                     self.err_acc[ev[0]] = True
+                if ev[0] == "w":
+                    self.s_wr_done += 1
         # ---- property: what the bridge drives is stable
         msg = self._stab(self.m_kind, pm, m, False)
         if msg:
@@ -728,12 +1107,18 @@ class BridgeMonitor:
                     return "master side: %s response %d but the slave side %s an error" % (
                         "write" if ev[0] == "w" else "read", ev[4], "reported" if exp else "did not report")
             self.err_acc[ev[0]] = False
+            if ev[0] == "w" and s is not None:
+                need = ev[5] if len(ev) > 5 else 1
+                if self.b_order and self.s_wr_done < need:
+                    return ("master side: write response given after %d of the %d slave-side write responses it "
+                            "stands for" % (self.s_wr_done, need))
+                self.s_wr_done = max(0, self.s_wr_done - need)
         if msg:
             return "master side: " + msg
         # ---- progress
         if self.hang:
             busy = self.inst.nontrivial(letter, outs)
-            pend = self.m_or.outstanding() if self.m_kind == "axl" else bool(m["cyc"] and m["stb"])
+            pend = self.m_or.outstanding() if self.m_kind in ("axl", "axi", "ahb") else bool(m["cyc"] and m["stb"])
             if busy or not pend:
                 self.idle_cycles = 0
             else:
